@@ -168,6 +168,14 @@ def run(report: Report, tier, seed):
     report.bounded.append(Bounded(function="compiled generated programs on the spec AVM", contract="stack holds nothing but the routine's results when control leaves (approve/reject with empty stack)",
                                   bound=f"{len(specs2)} generated programs x optimiser on/off x 2 contexts", cases=sum(r["ran"] for r in sw),
                                   distinct_nontrivial=len({r['key'] for r in sw if r['key']}), failures=len(known) + len(fails)))
+    from . import abisub
+    from .abi_e2e import pool_map
+    ares = pool_map(abisub.case, abisub.jobs(tier, seed + 3))
+    abad = [r for r in ares if r["problems"]]
+    report.bounded.append(Bounded(function="emitted TEAL of ABIReturnSubroutine calls (frame cells, by-reference indices)", contract="frame_dig / frame_bury stay inside the routine's own cells, stack discipline (tealcheck) and run-time type discipline hold",
+                                  bound=f"{len(ares)} generated signatures x versions 6..10 x frame-pointer settings", cases=sum(r["ran"] for r in ares), distinct_nontrivial=len(ares), failures=len(abad)))
+    for b in abad[:1]:
+        report.violation(Violation(key=f"abisub:{b['seed']}:{b['version']}:{b['opts']}", what=b["problems"][0][:400], replay={"input": {"abisub": [b["seed"], b["version"], b["opts"]]}, "teal": b.get("teal")}, confirmed_native=True))
     report.extra["explanation"] = "E: type lattice and operator signature tables; P: fragment stack-delta clauses (fragcheck); B: abstract interpretation of generated programs"
     report.settle_refuted(lambda fn, obs: fails[0] if fails else None)
     if known:
@@ -189,6 +197,11 @@ def replay(data):
     if not spec:
         print("no concrete input; refuted:", [x["id"] for x in r.get("refuted", [])])
         return 1
+    if (nat.get("input") or {}).get("abisub"):
+        from . import abisub
+        out = abisub.case(tuple(nat["input"]["abisub"]))
+        print(out["problems"])
+        return 1 if out["problems"] else 0
     if "problems" in nat:
         out = _tealcheck(spec)
         print(out["problems"])
